@@ -121,6 +121,9 @@ impl<T> ClientRuntimeState<T> where T : AsyncRead + AsyncWrite + Send + Sync + '
 
         let mut write_directive : Option<&[u8]>;
 
+        // all outbound bytes have been handed to the stream but its flush has not completed yet
+        let mut flush_pending = false;
+
         let mut next_state = None;
         while next_state.is_none() {
             trace!("tokio - process_connected loop");
@@ -135,7 +138,6 @@ impl<T> ClientRuntimeState<T> where T : AsyncRead + AsyncWrite + Send + Sync + '
                     None
                 };
 
-            let mut should_flush = false;
             if let Some(outbound_slice) = outbound_slice_option {
                 debug!("tokio - process_connected - {} bytes to write", outbound_slice.len());
                 write_directive = Some(outbound_slice)
@@ -187,20 +189,30 @@ impl<T> ClientRuntimeState<T> where T : AsyncRead + AsyncWrite + Send + Sync + '
                         next_state = Some(ClientImplState::PendingReconnect);
                     }
                 }
-                // outbound data future (if relevant)
-                Some(bytes_written_result) = conditional_write(write_directive, &mut stream_writer) => {
-                    match bytes_written_result {
-                        Ok(bytes_written) => {
+                // outbound data future (if relevant): write what is unsent; once everything has been written, flush.  The
+                // flush is polled here with everything else, so that a transport whose flush stalls does not keep the client
+                // from its requests, its input and its timers.
+                Some(output_result) = conditional_output(write_directive, flush_pending, &mut stream_writer) => {
+                    match output_result {
+                        Ok(OutputProgress::Written(bytes_written)) => {
                             debug!("tokio - process_connected - wrote {} bytes to connection stream", bytes_written);
                             cumulative_bytes_written += bytes_written;
                             if cumulative_bytes_written == outbound_data.len() {
                                 outbound_data.clear();
                                 cumulative_bytes_written = 0;
-                                should_flush = true;
+                                flush_pending = true;
+                            }
+                        }
+                        Ok(OutputProgress::Flushed) => {
+                            flush_pending = false;
+                            if let Err(error) = client.handle_write_completion() {
+                                info!("tokio - process_connected - stream write completion handler failed: {:?}", error);
+                                client.apply_error(error);
+                                next_state = Some(ClientImplState::PendingReconnect);
                             }
                         }
                         Err(error) => {
-                            info!("tokio - process_connected - connection stream write failed: {:?}", error);
+                            info!("tokio - process_connected - connection stream write or flush failed: {:?}", error);
                             if is_connection_established(client.get_protocol_state()) {
                                 client.apply_error(GneissError::new_connection_closed(error));
                             } else {
@@ -212,35 +224,14 @@ impl<T> ClientRuntimeState<T> where T : AsyncRead + AsyncWrite + Send + Sync + '
                 }
             }
 
-            if should_flush {
-                let flush_result = stream_writer.flush().await;
-                match flush_result {
-                    Ok(()) => {
-                        if let Err(error) = client.handle_write_completion() {
-                            info!("tokio - process_connected - stream write completion handler failed: {:?}", error);
-                            client.apply_error(error);
-                            next_state = Some(ClientImplState::PendingReconnect);
-                        }
-                    }
-                    Err(error) => {
-                        info!("tokio - process_connected - connection stream flush failed: {:?}", error);
-                        if is_connection_established(client.get_protocol_state()) {
-                            client.apply_error(GneissError::new_connection_closed(error));
-                        } else {
-                            client.apply_error(GneissError::new_connection_establishment_failure(error));
-                        }
-                        next_state = Some(ClientImplState::PendingReconnect);
-                    }
-                }
-            }
-
             if next_state.is_none() {
                 next_state = client.compute_optional_state_transition();
             }
         }
 
         info!("tokio - process_connected - shutting down stream");
-        let _ = stream_writer.shutdown().await;
+        // a transport that never completes its shutdown must not keep the client from moving on
+        let _ = tokio::time::timeout(*client.connect_timeout(), stream_writer.shutdown()).await;
         info!("tokio - process_connected - stream fully closed");
 
         Ok(next_state.unwrap())
@@ -283,10 +274,19 @@ async fn conditional_wait(wait_option: Option<tokio::time::Sleep>) -> Option<()>
     }
 }
 
-async fn conditional_write<T>(data: Option<&[u8]>, writer: &mut WriteHalf<T>) -> Option<std::io::Result<usize>> where T : AsyncRead + AsyncWrite {
+enum OutputProgress {
+    Written(usize),
+    Flushed
+}
+
+// Unsent bytes are written; with nothing left to write, a pending flush is driven.
+async fn conditional_output<T>(data: Option<&[u8]>, flush_pending: bool, writer: &mut WriteHalf<T>) -> Option<std::io::Result<OutputProgress>> where T : AsyncRead + AsyncWrite {
     match data {
         Some(bytes) => {
-            Some(writer.write(bytes).await)
+            Some(writer.write(bytes).await.map(OutputProgress::Written))
+        }
+        None if flush_pending => {
+            Some(writer.flush().await.map(|_| OutputProgress::Flushed))
         }
         _ => { None }
     }
